@@ -22,6 +22,7 @@ CALLS = {
     "I0": lambda n: {"n": n, "iter_fail_at": 0},
     "Il": lambda n: {"n": n, "iter_fail_at": n - 1},
     "T": lambda n: {"n": n, "stuck": [1]},
+    "Tl": lambda n: {"n": n, "stuck": [n - 1]},
 }
 
 
@@ -42,7 +43,7 @@ def to_scenario(c):
     cfg = dict(n_jobs=c["n_jobs"], batch_size=c["batch_size"], pre_dispatch=c["pre_dispatch"],
                return_as=c["return_as"], order="free", abort=c["abort"], program=prog,
                withhold=(c["abort"] == "zombie"), calls=list(c["calls"]), n=c["n"])
-    if "T" in c["calls"]:
+    if "T" in c["calls"] or "Tl" in c["calls"]:
         cfg["timeout"] = 0.05
     return cfg
 
@@ -87,7 +88,7 @@ def judge(cfg, obs):
             want = [("r", c, i) for i in range(n)]
             if "exc" in d:
                 bad.append(("ok-call-raises:%s|%s" % (d["exc"][0], prev), "call %d (ok, %s) raised %s%r" % (c, prev, d["exc"][0], d["exc"][1])))
-            elif d.get("result") != want:
+            elif (sorted(d.get("result") or [], key=repr) if ra == "generator_unordered" else d.get("result")) != (sorted(want, key=repr) if ra == "generator_unordered" else want):
                 got = d.get("result")
                 foreign = [x for x in (got or []) if not (isinstance(x, tuple) and len(x) == 3 and x[1] == c)]
                 kind = "foreign-result" if foreign else "wrong-result"
@@ -137,16 +138,16 @@ def _work(unit):
 
 def plan(ctx):
     quick = ctx.tier == "quick"
-    fails = ["F0", "Fl", "Fa", "F1", "I", "I0", "Il", "T"]
+    fails = ["F0", "Fl", "Fa", "F1", "I", "I0", "Il", "T", "Tl"]
     progs = [("O", "O")] + [(f, "O") for f in fails]
     if not quick:
-        progs += [(f, g, "O") for f in ("F0", "Fl", "I", "T") for g in ("F0", "I", "T", "O")]
+        progs += [(f, g, "O") for f in ("F0", "Fl", "I", "T", "Tl") for g in ("F0", "I", "T", "O")]
         progs += [("O", f, "O") for f in ("F0", "T")]
     else:
         progs += [("F0", "F0", "O"), ("F0", "T", "O"), ("O", "F1", "O")]
     configs = []
     for nj, bs, pre, ra, ab, managed, calls in itertools.product(
-            PC.N_JOBS, (1, 2), (1, "n_jobs", "2*n_jobs", 3, "all"), ("list", "generator"), ("drop", "zombie"),
+            PC.N_JOBS, (1, 2), (1, "n_jobs", "2*n_jobs", 3, "all"), ("list", "generator", "generator_unordered"), ("drop", "zombie"),
             (False, True), progs):
         configs.append(dict(n_jobs=nj, batch_size=bs, pre_dispatch=pre, return_as=ra, abort=ab, managed=managed,
                             calls=calls, n=4 if quick else 5))
